@@ -12,7 +12,8 @@
    namespace-alias, attribute sets, xsl:copy / xsl:copy-of, illegal element names.
 
    Strings are abstracted to atoms: the code only compares prefixes/URIs for equality, tests
-   emptiness, tests the literal strings "xmlns" / "xml" / startsWith("xml"), and invents "ns<N>". *)
+   emptiness, tests the literal strings "xmlns" / "xml" (as prefixes), and invents "ns<N>".
+   State of the code: with the repairs of K3, K16, KN1, KN2, KN3, KN4, KN5, KN8 applied. *)
 From Coq Require Import List NArith Bool.
 Require Import XV.GenNsfix.
 Import ListNotations.
@@ -24,7 +25,8 @@ Local Open Scope N_scope.
 Inductive atom : Type :=
 | AXmlns                (* the string "xmlns" *)
 | AXml                  (* the string "xml" *)
-| AXmlish (n : N)       (* a name that starts with "xml" but is neither of the two above *)
+| AXmlish (n : N)       (* a name that starts with "xml" but is neither of the two above (no
+                           longer special since the KN3 repair; kept as a generator class) *)
 | AUser (n : N)         (* any other name that is not of the form ns<decimal> *)
 | AGen (n : N).         (* the string "ns" ++ decimal n : what getUniqueNamespaceValue invents *)
 
@@ -57,13 +59,6 @@ Definition ename := (uri * atom)%type.    (* expanded name; uri 0 = no namespace
 
 Definition qname_eqb (a b : qname) : bool := pfx_eqb (fst a) (fst b) && atom_eqb (snd a) (snd b).
 Definition ename_eqb (a b : ename) : bool := N.eqb (fst a) (fst b) && atom_eqb (snd a) (snd b).
-
-Definition starts_xml (a : atom) : bool :=
-  match a with AXmlns | AXml | AXmlish _ => true | _ => false end.
-
-(* startsWith(name, "xml") on the whole qualified name string *)
-Definition qname_starts_xml (q : qname) : bool :=
-  match fst q with Some p => starts_xml p | None => starts_xml (snd q) end.
 
 (* ---------------------------------------------------------------------------------------- *)
 (* attributes, events *)
@@ -132,9 +127,16 @@ Definition ns_for_prefix (s : list ctx) (p : pfx) : option uri :=
   end.
 
 (* XalanNamespacesStack::getPrefixForNamespace: the first declaration with that URI, innermost
-   context first — it does not check that the prefix is still bound to that URI *)
+   context first; nothing if that prefix has been re-bound to another URI in a nearer context *)
 Definition prefix_for_ns (s : list ctx) (u : uri) : option pfx :=
-  if all_empty s then None else stk_prefix_for u s.
+  if all_empty s then None
+  else match stk_prefix_for u s with
+       | Some p => match ns_for_prefix s p with
+                   | Some w => if N.eqb w u then Some p else None
+                   | None => None
+                   end
+       | None => None
+       end.
 
 Definition add_decl (p : pfx) (u : uri) (s : list ctx) : list ctx :=
   match s with
@@ -146,17 +148,9 @@ Definition add_decl (p : pfx) (u : uri) (s : list ctx) : list ctx :=
 (* state of the engine *)
 
 Inductive hazard : Type :=
-| HK3            (* xsl:attribute keeps/invents a prefix and generates no declaration for it *)
-| HXmlish        (* xsl:attribute without namespace=, name starts with "xml": no declaration *)
-| HK16           (* xsl:element with prefix xmlns, or xml bound to a foreign URI *)
 | HK17           (* two pending attributes with different qualified names, one expanded name *)
-| HShadow        (* getResultPrefixForNamespace returned a prefix that is re-bound in scope *)
-| HLeak          (* xsl:attribute namespace=.. while no element is pending *)
-| HXmlPrefix     (* xsl:attribute name="xml:.." namespace=(a foreign URI) keeps xml: *)
 | HDeclAttr      (* xsl:attribute whose final name is xmlns or xmlns:.. : creates a declaration *)
 | HElemEmptyNs   (* xsl:element name="p:l" namespace="" with p declared in the stylesheet *)
-| HElemUndecl    (* xsl:element name="p:l" namespace="" with p undeclared: xmlns:p="" *)
-| HExclDefault   (* prefixed LRE with its own xmlns="U", U excluded: written all the same *)
 | HUnsupported.  (* outside the modelled language *)
 
 Record st : Type := mkSt {
@@ -334,13 +328,15 @@ Definition declare_prefix (s : st) (p : atom) (u : uri) : st :=
   add_result_attr s (Some AXmlns, p) u no_req.
 
 (* xsl:attribute with a namespace: no usable prefix is bound to the URI, so a declaration is
-   generated for the prefix of the name (unless it is xmlns, or bound to another URI and in use on
-   the pending element) or for an invented prefix *)
+   generated for the prefix of the name (unless it is xmlns, or xml with a foreign URI, or bound to
+   another URI and in use on the pending element) or for an invented prefix *)
 Definition attr_new_decl (s : st) (P : pfx) (L : atom) (u : uri) (v : N) (req : ename) : st :=
   let keep_user :=
     match P with
     | Some AXmlns => None
     | Some p =>
+        if atom_eqb p AXml && negb (N.eqb u uXML) then None
+        else
         match ns_for_prefix (stk s) (Some p) with
         | Some w => if negb (N.eqb w u) && is_pending_prefix s p then None else Some p
         | None => Some p
@@ -349,8 +345,7 @@ Definition attr_new_decl (s : st) (P : pfx) (L : atom) (u : uri) (v : N) (req : 
     end in
   match keep_user with
   | Some p =>
-      let bad := match p with AXml => negb (N.eqb u uXML) | _ => false end in
-      let s1 := declare_prefix (add_hz_if bad HXmlPrefix s) p u in
+      let s1 := declare_prefix s p u in
       emit_attr s1 (Some p, L) v req
   | None =>
       let (g, s1) := gen_unique s in
@@ -364,45 +359,31 @@ Definition exec_attr (s : st) (name : qname) (nsattr sns : option uri) (v : N) :
   let req := req_attr name nsattr sns in
   match nsattr with
   | Some u =>
-      let s := add_hz_if (match pend s with None => true | Some _ => false end) HLeak s in
-      if N.eqb u 0 then emit_attr s (None, L) v req
-      else
-        let found := prefix_for_ns (stk s) u in
-        let use_found :=
-          match found with
-          | Some (Some q) => match P with None => true | Some p => atom_eqb p q end
-          | _ => false
-          end in
-        if use_found then
-          match found with
-          | Some (Some q) =>
-              let stale := match ns_for_prefix (stk s) (Some q) with
-                           | Some w => negb (N.eqb w u)
-                           | None => true
-                           end in
-              emit_attr (add_hz_if stale HShadow s) (Some q, L) v req
-          | _ => s
-          end
-        else attr_new_decl s P L u v req
+      match pend s with
+      | None => s                                              (* warning, attribute dropped *)
+      | Some _ =>
+          if N.eqb u 0 then emit_attr s (None, L) v req
+          else
+            match prefix_for_ns (stk s) u with
+            | Some (Some q) =>
+                if match P with None => true | Some p => atom_eqb p q end
+                then emit_attr s (Some q, L) v req
+                else attr_new_decl s P L u v req
+            | _ => attr_new_decl s P L u v req
+            end
+      end
   | None =>
       match pend s with
       | None => s                                              (* warning, attribute dropped *)
       | Some _ =>
           if qname_eqb name (None, AXmlns) then s             (* name="xmlns": dropped *)
-          else if qname_starts_xml name then
-            (* "don't try to create a namespace declaration for anything that starts with xml" *)
-            let bad := match P with
-                       | Some AXml => false
-                       | Some p => match sns, ns_for_prefix (stk s) (Some p) with
-                                   | Some n, Some w => negb (N.eqb n w)
-                                   | _, _ => true
-                                   end
-                       | None => false
-                       end in
-            emit_attr (add_hz_if bad HXmlish s) name v req
           else
             match P with
             | None => emit_attr s name v req
+            | Some AXml | Some AXmlns =>
+                (* "don't try to create a namespace declaration for anything that starts with
+                   xml: or xmlns:" *)
+                emit_attr s name v req
             | Some p =>
                 match sns with
                 | None => s                                    (* prefix not declared: dropped *)
@@ -414,16 +395,13 @@ Definition exec_attr (s : st) (name : qname) (nsattr sns : option uri) (v : N) :
                     let (p', s1) := if conflict then gen_unique s else (p, s) in
                     if N.eqb n 0 then s1
                     else
-                      match prefix_for_ns (stk s1) n with
-                      | None => emit_attr (declare_prefix s1 p' n) (Some p', L) v req
-                      | Some _ =>
-                          (* "already a declaration in scope": none generated, prefix kept *)
-                          let unbound := match ns_for_prefix (stk s1) (Some p') with
-                                         | Some w => negb (N.eqb w n)
-                                         | None => true
-                                         end in
-                          emit_attr (add_hz_if unbound HK3 s1) (Some p', L) v req
-                      end
+                      (* a declaration unless the prefix itself is bound to the namespace *)
+                      let bound := match ns_for_prefix (stk s1) (Some p') with
+                                   | Some w => N.eqb w n
+                                   | None => false
+                                   end in
+                      if bound then emit_attr s1 (Some p', L) v req
+                      else emit_attr (declare_prefix s1 p' n) (Some p', L) v req
                 end
             end
       end
@@ -433,45 +411,51 @@ Definition exec_attr (s : st) (name : qname) (nsattr sns : option uri) (v : N) :
 
 Definition declare_default (s : st) (u : uri) : st := add_result_attr s (None, AXmlns) u no_req.
 
+(* xsl:element whose (remaining) name has no prefix *)
+Definition elem_unprefixed (s : st) (name : qname) (req : ename) (nsattr sdef : option uri) (pdef : uri) : st :=
+  let ens0 := match nsattr with Some u => u | None => 0 end in
+  let s1 := start_elem s name req in
+  match nsattr with
+  | None =>                                                (* fixupDefaultNamespace *)
+      match ns_for_prefix (stk s1) None, sdef with
+      | Some c, None => declare_default s1 0
+      | Some c, Some d => if N.eqb c d then s1 else declare_default s1 d
+      | None, Some d => declare_default s1 d
+      | None, None => s1
+      end
+  | Some _ =>
+      if negb (N.eqb ens0 0) then
+        match ns_for_prefix (stk s1) None with
+        | Some c => if N.eqb c ens0 then s1 else declare_default s1 ens0
+        | None => declare_default s1 ens0
+        end
+      else
+        if negb (N.eqb pdef 0) || (match ns_for_prefix (stk s1) None with Some _ => true | None => false end)
+        then declare_default s1 0 else s1
+  end.
+
 Definition exec_elem (s : st) (name : qname) (nsattr sns sdef : option uri) (pdef : uri) : st :=
   let P := fst name in
   let L := snd name in
   let req := req_elem name nsattr sns sdef in
   let ens0 := match nsattr with Some u => u | None => 0 end in
   match P with
-  | None =>
-      let s1 := start_elem s name req in
-      match nsattr with
-      | None =>                                                (* fixupDefaultNamespace *)
-          match ns_for_prefix (stk s1) None, sdef with
-          | Some c, None => declare_default s1 0
-          | Some c, Some d => if N.eqb c d then s1 else declare_default s1 d
-          | None, Some d => declare_default s1 d
-          | None, None => s1
-          end
-      | Some _ =>
-          if negb (N.eqb ens0 0) then
-            match ns_for_prefix (stk s1) None with
-            | Some c => if N.eqb c ens0 then s1 else declare_default s1 ens0
-            | None => declare_default s1 ens0
-            end
-          else
-            if negb (N.eqb pdef 0) || (match ns_for_prefix (stk s1) None with Some _ => true | None => false end)
-            then declare_default s1 0 else s1
-      end
+  | None => elem_unprefixed s name req nsattr sdef pdef
   | Some p =>
       match sns, N.eqb ens0 0, nsattr with
       | None, true, None =>
           (* illegal element name: not modelled *)
           add_hz (start_elem s name req) HUnsupported
       | None, true, Some _ =>
-          (* prefix stripped, but still "havePrefix": xmlns:p="" is generated *)
-          let s1 := start_elem (add_hz s HElemUndecl) (None, L) req in
-          match ns_for_prefix (stk s1) (Some p) with
-          | Some w => if N.eqb w 0 then s1 else declare_prefix s1 p 0
-          | None => declare_prefix s1 p 0
-          end
+          (* undeclared prefix and namespace="": the prefix is stripped *)
+          elem_unprefixed s (None, L) req nsattr sdef pdef
       | _, _, _ =>
+          if negb (N.eqb ens0 0) && (atom_eqb p AXmlns || (atom_eqb p AXml && negb (N.eqb ens0 uXML)))
+          then
+            (* reserved prefix that cannot be bound to the requested namespace: dropped, the
+               element gets the namespace through a default namespace declaration *)
+            elem_unprefixed s (None, L) req nsattr sdef pdef
+          else
           let ens := match sns with
                      | Some n => if N.eqb ens0 0 && negb (atom_eqb p AXmlns) then n else ens0
                      | None => ens0
@@ -485,7 +469,7 @@ Definition exec_elem (s : st) (name : qname) (nsattr sns sdef : option uri) (pde
                     | AXml => negb (N.eqb ens uXML)
                     | _ => false
                     end in
-          let s1 := start_elem (add_hz_if h2 HK16 (add_hz_if h1 HElemEmptyNs s)) name req in
+          let s1 := start_elem (add_hz_if h2 HUnsupported (add_hz_if h1 HElemEmptyNs s)) name req in
           match ns_for_prefix (stk s1) (Some p) with
           | Some w => if N.eqb w ens then s1 else declare_prefix s1 p ens
           | None => declare_prefix s1 p ens
@@ -538,17 +522,11 @@ Definition output_ns (s : st) (d : pfx * uri) : st :=
 Definition exec_lre (s : st) (name : qname) (inscope : list (pfx * uri)) (excl : list uri)
            (attrs : list (qname * N)) : st :=
   let req := req_lre_elem name inscope in
-  (* a literal xmlns="U" is also kept as an ordinary literal attribute (ElemLiteralResult::init only
-     skips names with the prefix xmlns), so it is written even when U is excluded *)
-  let hx := match fst name with
-            | None => false
-            | Some _ => existsb (fun a => qname_eqb (fst a) (None, AXmlns) && mem_uri (snd a) excl) attrs
-            end in
   (* two literal attributes with one expanded name: the stylesheet is not namespace-well-formed *)
   let hd := negb (nodup_by ename_eqb
                     (map (fun a => req_lre_attr (fst a) inscope)
                          (filter (fun a => match decl_prefix (fst a) with Some _ => false | None => true end) attrs))) in
-  let s1 := start_elem (add_hz_if hd HUnsupported (add_hz_if hx HExclDefault s)) name req in
+  let s1 := start_elem (add_hz_if hd HUnsupported s) name req in
   let s2 := fold_left output_ns (lre_decls name inscope excl attrs) s1 in
   let s3 :=
     match fst name with
